@@ -157,6 +157,7 @@ def finish(result, tier, t0, selftest=None, prog=None):
         coverage["normal_form_gate"] = {
             "reference": getattr(prog, "reference_head", None),
             "functions_analysed_in_reference_form": gated,
+            "renamed_functions_mapped_back": list(getattr(prog, "renamed", [])),
             "rule": "a function whose text differs from /verif/reference but whose function normal form (sa/fnf.py) is equal is analysed "
                     "in its reference form; any other difference is analysed as written",
         }
